@@ -53,7 +53,17 @@ func (x *Exec) script(q *Query, quant bool, z3 bool, model bool) string {
 		fmt.Fprintf(&b, "(assert %s)\n", a)
 	}
 	if !q.Smoke {
-		fmt.Fprintf(&b, "(assert (not %s))\n", q.Goal)
+		goal, decls, trig := x.skolemGoal(q.Goal)
+		for _, d := range decls {
+			if !x.w.extraSeen[d] {
+				b.WriteString(d)
+				b.WriteString("\n")
+			}
+		}
+		for _, a := range trig {
+			fmt.Fprintf(&b, "(assert %s)\n", a)
+		}
+		fmt.Fprintf(&b, "(assert (not %s))\n", goal)
 	}
 	b.WriteString("(check-sat)\n")
 	if model {
